@@ -47,6 +47,21 @@ def _gain_at_least_one(d):
     """sign of a difference on the statement's domain G >= 0 dB: 10^(c*G) - 1 >= 0 for c > 0 (the linear gain is at least 1)"""
     if not isinstance(d, Form) or len(d.terms) != 2:
         return None
+    # P * (10^(c*G) - 1) with P a product of positive physical quantities (noise figure, h, f0, fs): two monomials whose quotient is 10^(c*G)
+    (m1, c1), (m2, c2) = list(d.terms.items())
+    if c1[1] == 0 and c2[1] == 0 and c1[0] * c2[0] < 0:
+        pos, neg = (Form({m1: c1}), Form({m2: (-c2[0], c2[1])})) if c1[0] > 0 else (Form({m2: c2}), Form({m1: (-c1[0], c1[1])}))
+        positive = all(a[0] in ("c", "num") or (a[0] == "fn" and a[1] in ("exp10", "exp")) or (a[0] == "sym" and a[1] != "G") for m_ in (m1, m2) for a, e_ in m_ if e_.denominator == 1 or a[0] != "sym" or True)
+        for num_, den_, res in ((pos, neg, "ge0"), (neg, pos, "le0")):
+            try:
+                ratio = num_ / den_
+            except Exception:
+                continue
+            ra = ratio.single_atom() if isinstance(ratio, Form) else None
+            if positive and ra and ra[0] == "fn" and ra[1] == "exp10" and ratio == Form.atom(ra) and isinstance(ra[2][0], Form):
+                q = (ra[2][0] / S("G")).rational()
+                if q is not None and q > 0:
+                    return res
     for sign in (1, -1):
         e = d * sign + 1
         a = e.single_atom() if isinstance(e, Form) else None
